@@ -6,13 +6,30 @@
 //!   1 Build from_arc_regions(clones of handles unpacked from a, 5 bits each, b of them)
 //!   2 Insert map=a region=b | 3 Remove map=a base=(b/2)*0x10000 size=0x1000 (0x2000 if b odd)
 //!   4 Clone a | 5 Snapshot a = Arc::new(map.clone()) | 6 Drop a
+//!   7 CreateRefused variant=a%9 slot=b: a creation the library refuses.  0 file range past EOF, 1 file offset + size
+//!     overflows, 2 / 3 MAP_FIXED in the flags (anonymous / file), 4 / 5 misaligned raw pointer (builder / build_raw):
+//!     no region id, val = number of STRAY mappings the call left (mappings of the request's uniquely named backing
+//!     file that should not exist; for 4 / 5: 7 if the harness' own mapping is gone);  6 / 7 / 8: an anonymous / file /
+//!     raw MmapRegion is built and GuestRegionMmap::new(region, base) is called with base + size overflowing: the
+//!     mapping gets the next region id and is observed like every other region (no handle ever reaches it).
+//!     st 2 = the library refused; st 1 = it accepted and the harness dropped the result at once.
+//!   8 BuildMove: from_arc_regions (b < 16) / from_regions (b >= 16, every Arc must be unshared: Arc::try_unwrap) over the
+//!     handles THEMSELVES, packed in a, count b%16 (all distinct region handles): they are consumed, Ok or Err
+//!   9 InsertMove map=a region=b: insert_region(the handle's own Arc); handle b is consumed, Ok or Err
 //! obs: ONE list [st,val,live, ...]: st 1 done / 2 library Err / 0 not possible; val = bit set of the
 //!   region ids reachable through the handle just returned, ids READ FROM THE REGION BYTES through
 //!   raw host pointers; live = bit r set iff region r's memory is still mapped: uniquely named memfd
 //!   in /proc/self/maps (file, raw) or its address range still covered (anonymous; a range seen
 //!   unmapped once is dead for good, which removes the address-reuse ambiguity).
-//! After every operation every region reachable from every live handle is read through its raw
-//! pointer (a wrongly unmapped one faults: the runner reports the crash with the case).
+//! After every operation EVERY region's mapping is looked up page by page in /proc/self/maps: a region counts as
+//! mapped while any page of its span is (a munmap that is too short leaves a tail behind); a region of which only
+//! SOME pages are mapped, or a region reachable from a live handle whose first page is not mapped (a munmap that was
+//! too long took a neighbour along - regions created back to back are adjacent, mmap hands out addresses top down), makes
+//! the step report live = all ones and ends the history - as does an operation after which the number of mapped bytes
+//! of the whole process (heap and stacks aside) has not changed by exactly the spans of the regions that came to
+//! life or went away in it (a munmap that is too long may also hit mappings that are not regions); otherwise every region reachable from every live handle is
+//! read through its raw pointer.  Some file-backed regions carry the caller's hugetlbfs hint Some(true) (on an ordinary
+//! file; set through set_hugetlbfs or with_hugetlbfs): a hint must not change what Drop unmaps.
 use crate::Suite;
 // the unix (non-xen) mmap backend is the subject; under the harness feature `xen` the suite is empty
 #[cfg(not(feature = "xen"))]
@@ -91,48 +108,98 @@ fn mask_h(h: &H) -> u128 {
         H::Snap(m) => mask_regions(m.iter()),
     }
 }
-fn covered(mp: &str, addr: usize, len: usize) -> bool {
+/// the lines of /proc/self/maps as (start, end, text)
+fn parse_maps(mp: &str) -> Vec<(usize, usize, &str)> {
+    let mut v = Vec::new();
     for l in mp.lines() {
         let range = l.split(' ').next().unwrap_or("");
         let mut it = range.split('-');
         if let (Some(a), Some(b)) = (it.next(), it.next()) {
             if let (Ok(a), Ok(b)) = (usize::from_str_radix(a, 16), usize::from_str_radix(b, 16)) {
-                if a <= addr && addr + len <= b {
-                    return true;
-                }
+                v.push((a, b, l));
             }
         }
     }
-    false
+    v
 }
-fn live_mask(infos: &mut [Info]) -> u128 {
-    let mp = maps();
+fn page_mapped(lines: &[(usize, usize, &str)], page: usize, name: Option<&str>) -> bool {
+    lines.iter().any(|(a, b, l)| *a <= page && page + PAGE <= *b && name.map_or(true, |n| l.contains(n)))
+}
+/// (live mask, some mapping is only partly there)
+fn live_mask(infos: &mut [Info], mp: &str) -> (u128, bool) {
+    let lines = parse_maps(mp);
     let mut mask = 0u128;
+    let mut partial = false;
     for (r, inf) in infos.iter_mut().enumerate() {
+        let total = span_of(inf.size) / PAGE;
+        // the whole name: "…_r1" must not match the line of "…_r10"
+        let needle = format!("/memfd:{} (deleted)", inf.name);
+        let name = if inf.kind == 0 { None } else { Some(needle.as_str()) };
+        let mapped = (0..total).filter(|k| page_mapped(&lines, inf.addr + k * PAGE, name)).count();
         let alive = if inf.kind == 0 {
-            // alive while ANY page of the mapping's page span is still mapped
-            let any = (0..span_of(inf.size) / PAGE).any(|k| covered(&mp, inf.addr + k * PAGE, PAGE));
-            if !inf.dead_seen && !any {
+            // an anonymous range seen unmapped once is dead for good (its addresses may be handed out again)
+            if !inf.dead_seen && mapped == 0 {
                 inf.dead_seen = true;
+            }
+            if !inf.dead_seen && mapped < total {
+                partial = true;
             }
             !inf.dead_seen
         } else {
-            mp.contains(&format!("{} (deleted)", inf.name))
+            if mapped > 0 && mapped < total {
+                partial = true;
+            }
+            mapped > 0 || mp.contains(&format!("{} (deleted)", inf.name))
         };
         if alive {
             mask |= 1u128 << r;
         }
     }
-    mask
+    (mask, partial)
+}
+/// bytes of address space mapped by everything except the heap and the stacks (which grow on their own)
+fn mapped_bytes(lines: &[(usize, usize, &str)]) -> usize {
+    lines.iter().filter(|(_, _, l)| !l.contains("[heap]") && !l.contains("[stack")).map(|(a, b, _)| b - a).sum()
+}
+/// the first page of every region reachable through the handle is mapped (so that reading its tag cannot fault)
+fn handle_readable(h: &H, lines: &[(usize, usize, &str)]) -> bool {
+    let ok = |r: &R| page_mapped(lines, r.as_ptr() as usize, None);
+    match h {
+        H::Region(r) => ok(r),
+        H::Map(m) => m.iter().all(|r| ok(r)),
+        H::Snap(m) => m.iter().all(|r| ok(r)),
+    }
 }
 
 fn create(cid: u64, id: u64, kind: u64, slot: u64, raws: &mut Vec<usize>) -> (Arc<R>, Info) {
+    let (region, inf) = build_region(cid, id, kind, raws);
+    let r = Arc::new(GuestRegionMmap::new(region, GuestAddress(slot * 0x10000)).unwrap());
+    (r, inf)
+}
+
+/// the MmapRegion of region `id` (tagged with its id) and what the harness knows about its mapping
+fn build_region(cid: u64, id: u64, kind: u64, raws: &mut Vec<usize>) -> (MmapRegion<()>, Info) {
     let name = format!("vmh12_{}_r{}", cid, id);
     let prot = libc::PROT_READ | libc::PROT_WRITE;
     let size = size_of_region(id);
     let region: MmapRegion<()> = match kind {
         0 => MmapRegion::new(size).unwrap(),
-        1 => MmapRegion::from_file(FileOffset::new(memfd(&name, span_of(size)), 0), size).unwrap(),
+        1 => match id % 3 {
+            // the caller's hugetlbfs hint on an ordinary file (sizes are no multiples of 2 MiB): a hint, nothing else
+            1 => {
+                let mut r = MmapRegion::from_file(FileOffset::new(memfd(&name, span_of(size)), 0), size).unwrap();
+                r.set_hugetlbfs(true);
+                r
+            }
+            2 => MmapRegionBuilder::<()>::new(size)
+                .with_file_offset(FileOffset::new(memfd(&name, span_of(size)), 0))
+                .with_mmap_prot(prot)
+                .with_mmap_flags(libc::MAP_NORESERVE | libc::MAP_SHARED)
+                .with_hugetlbfs(true)
+                .build()
+                .unwrap(),
+            _ => MmapRegion::from_file(FileOffset::new(memfd(&name, span_of(size)), 0), size).unwrap(),
+        },
         _ => {
             let f = memfd(&name, span_of(size));
             // SAFETY: a fresh shared mapping owned by the harness; unmapped by the harness at the end
@@ -161,8 +228,73 @@ fn create(cid: u64, id: u64, kind: u64, slot: u64, raws: &mut Vec<usize>) -> (Ar
         std::ptr::write_volatile(addr as *mut u64, id);
         std::ptr::write_volatile((addr as *mut u64).add(1), MAGIC ^ id);
     }
-    let r = Arc::new(GuestRegionMmap::new(region, GuestAddress(slot * 0x10000)).unwrap());
-    (r, Info { kind, name, addr, size, dead_seen: false })
+    (region, Info { kind, name, addr, size, dead_seen: false })
+}
+
+/// number of mappings in /proc/self/maps whose backing file carries `name`
+fn named_mappings(name: &str) -> u128 {
+    let needle = format!("/memfd:{} (deleted)", name);
+    maps().lines().filter(|l| l.contains(&needle)).count() as u128
+}
+
+/// variants 0..5 of CreateRefused: requests refused before anything is mapped.  Returns (st, stray mappings).
+fn refused_request(cid: u64, seq: u64, v: u64) -> (u128, u128) {
+    let name = format!("vmh12_{}_x{}", cid, seq);
+    let size = size_of_region(seq);
+    let span = span_of(size);
+    let rw = libc::PROT_READ | libc::PROT_WRITE;
+    match v {
+        0 | 1 | 3 => {
+            let f = memfd(&name, span);
+            let res = match v {
+                // the mapping would extend one page past EOF
+                0 => MmapRegion::<()>::from_file(FileOffset::new(f, PAGE as u64), size),
+                // offset + size overflows u64
+                1 => MmapRegion::<()>::from_file(FileOffset::new(f, u64::MAX - 0xfff), size.max(PAGE)),
+                _ => MmapRegionBuilder::<()>::new(size)
+                    .with_file_offset(FileOffset::new(f, 0))
+                    .with_mmap_prot(rw)
+                    .with_mmap_flags(libc::MAP_SHARED | libc::MAP_FIXED)
+                    .build(),
+            };
+            let st = if res.is_ok() { 1 } else { 2 };
+            drop(res);
+            (st, named_mappings(&name))
+        }
+        2 => {
+            let res = MmapRegionBuilder::<()>::new(size)
+                .with_mmap_prot(rw)
+                .with_mmap_flags(libc::MAP_ANONYMOUS | libc::MAP_PRIVATE | libc::MAP_FIXED)
+                .build();
+            let st = if res.is_ok() { 1 } else { 2 };
+            drop(res);
+            (st, 0)
+        }
+        _ => {
+            // a mapping of the harness, offered through a pointer that is not page aligned
+            let f = memfd(&name, span);
+            // SAFETY: fresh shared mapping owned by the harness, unmapped below
+            let p = unsafe { libc::mmap(std::ptr::null_mut(), span, rw, libc::MAP_SHARED, f.as_raw_fd(), 0) };
+            assert_ne!(p, libc::MAP_FAILED);
+            let bad = (p as usize + 1) as *mut u8;
+            // SAFETY: the request is refused (misaligned); if it were accepted the object is dropped at once and never used
+            let res = unsafe {
+                if v == 4 {
+                    MmapRegionBuilder::<()>::new(size - 1).with_raw_mmap_pointer(bad).with_mmap_prot(rw).with_mmap_flags(libc::MAP_SHARED).build()
+                } else {
+                    MmapRegion::<()>::build_raw(bad, size - 1, rw, libc::MAP_SHARED)
+                }
+            };
+            let st = if res.is_ok() { 1 } else { 2 };
+            drop(res);
+            let cnt = named_mappings(&name);
+            // SAFETY: mapped above
+            unsafe {
+                libc::munmap(p, span);
+            }
+            (st, if cnt == 0 { 7 } else { cnt - 1 })
+        }
+    }
 }
 
 fn exec(case: &[Tok]) -> Vec<Tok> {
@@ -172,6 +304,11 @@ fn exec(case: &[Tok]) -> Vec<Tok> {
     let mut infos: Vec<Info> = Vec::new();
     let mut raws: Vec<usize> = Vec::new();
     let mut out: Vec<u128> = Vec::new();
+    let mut nrefused: u64 = 0;
+    // address-space accounting: after every operation the mapped bytes must have changed by exactly the spans of the
+    // regions that came to life / went away in it (a munmap that is too long takes foreign mappings along)
+    let mut prev_bytes = mapped_bytes(&parse_maps(&maps()));
+    let mut prev_mask: u128 = 0;
     let idx = |x: u128| if x < 1 << 32 { x as usize } else { usize::MAX };
     for p in ops.chunks(3).take(300) {
         if p.len() < 3 {
@@ -263,18 +400,131 @@ fn exec(case: &[Tok]) -> Vec<Tok> {
                     res = (1, 0);
                 }
             }
+            7 if infos.len() < 100 => {
+                let v = (a % 9) as u64;
+                if v < 6 {
+                    nrefused += 1;
+                    res = refused_request(cid, nrefused, v);
+                } else {
+                    // an MmapRegion of kind v - 6 is built, then GuestRegionMmap::new gets a base that overflows
+                    let id = infos.len() as u64;
+                    let (region, inf) = build_region(cid, id, v - 6, &mut raws);
+                    let size = region.size() as u64;
+                    infos.push(inf);
+                    let r = GuestRegionMmap::new(region, GuestAddress(u64::MAX - size + 1));
+                    res = (if r.is_ok() { 1 } else { 2 }, 0);
+                    drop(r);
+                }
+            }
+            8 => {
+                let cnt = (b % 16).min(8) as usize;
+                let unwrap = b >= 16;
+                let mut ids: Vec<usize> = Vec::new();
+                let mut x = a;
+                for _ in 0..cnt {
+                    ids.push((x % 32) as usize);
+                    x /= 32;
+                }
+                let distinct = (0..ids.len()).all(|i| !ids[i + 1..].contains(&ids[i]));
+                let all_regions = ids.iter().all(|i| matches!(handles.get(*i), Some(Some(H::Region(_)))));
+                let sole = ids.iter().all(|i| match handles.get(*i) {
+                    Some(Some(H::Region(r))) => Arc::strong_count(r) == 1,
+                    _ => false,
+                });
+                if all_regions && distinct && (!unwrap || sole) {
+                    let arcs: Vec<Arc<R>> = ids
+                        .iter()
+                        .map(|i| match handles[*i].take() {
+                            Some(H::Region(r)) => r,
+                            _ => unreachable!(),
+                        })
+                        .collect();
+                    let built = if unwrap {
+                        let regions: Vec<R> = arcs.into_iter().map(|r| Arc::try_unwrap(r).ok().expect("sole owner")).collect();
+                        GuestMemoryMmap::from_regions(regions)
+                    } else {
+                        GuestMemoryMmap::from_arc_regions(arcs)
+                    };
+                    match built {
+                        Ok(m) => {
+                            res = (1, mask_regions(m.iter()));
+                            handles.push(Some(H::Map(m)));
+                        }
+                        Err(_) => res = (2, 0),
+                    }
+                }
+            }
+            9 => {
+                let ok = matches!(handles.get(idx(a)), Some(Some(H::Map(_)))) && matches!(handles.get(idx(b)), Some(Some(H::Region(_))));
+                if ok {
+                    let arc = match handles[idx(b)].take() {
+                        Some(H::Region(r)) => r,
+                        _ => unreachable!(),
+                    };
+                    let out = match &handles[idx(a)] {
+                        Some(H::Map(m)) => m.insert_region(arc),
+                        _ => unreachable!(),
+                    };
+                    match out {
+                        Ok(m2) => {
+                            res = (1, mask_regions(m2.iter()));
+                            handles.push(Some(H::Map(m2)));
+                        }
+                        Err(_) => res = (2, 0),
+                    }
+                }
+            }
             _ => {}
         }
-        // reads through every surviving handle
-        let mut corrupt = false;
+        // every mapping, page by page; then reads through every surviving handle
+        let mp = maps();
+        let (mask, partial) = live_mask(&mut infos, &mp);
+        let lines = parse_maps(&mp);
+        let mut corrupt = partial;
+        let now_bytes = mapped_bytes(&lines);
+        let mut expect = prev_bytes as i128;
+        for (r, inf) in infos.iter().enumerate() {
+            let (was, is) = (prev_mask >> r & 1 == 1, mask >> r & 1 == 1);
+            if is && !was {
+                expect += span_of(inf.size) as i128;
+            }
+            if was && !is {
+                expect -= span_of(inf.size) as i128;
+            }
+        }
+        if now_bytes as i128 != expect {
+            corrupt = true;
+            if std::env::var("VMH_DEBUG12").is_ok() {
+                eprintln!("accounting: prev {:x} now {:x} expect {:x} prev_mask {:x} mask {:x} partial {}\n{}", prev_bytes, now_bytes, expect, prev_mask, mask, partial, mp);
+                for inf in infos.iter() {
+                    eprintln!("  region kind {} {} addr {:x} size {:x} dead {}", inf.kind, inf.name, inf.addr, inf.size, inf.dead_seen);
+                }
+            }
+        }
+        prev_bytes = now_bytes;
+        prev_mask = mask;
         for h in handles.iter().flatten() {
-            if mask_h(h) >> 127 != 0 {
+            if !handle_readable(h, &lines) {
                 corrupt = true;
+            }
+        }
+        if !corrupt {
+            for h in handles.iter().flatten() {
+                if mask_h(h) >> 127 != 0 {
+                    corrupt = true;
+                }
             }
         }
         out.push(res.0);
         out.push(res.1);
-        out.push(if corrupt { u128::MAX } else { live_mask(&mut infos) });
+        out.push(if corrupt { u128::MAX } else { mask });
+        if corrupt {
+            // handles may point at unmapped memory: forget them instead of running their destructors on it
+            for h in handles.drain(..) {
+                std::mem::forget(h);
+            }
+            break;
+        }
     }
     handles.clear();
     for ps in raws.chunks(2) {
@@ -346,6 +596,41 @@ fn gen(rng: &mut Rng, tier: Tier, emit: &mut dyn FnMut(Vec<Tok>)) {
     // ---- error paths: overlapping / unsorted / empty builds and inserts must change nothing
     case(&[(0, 1, 1), (0, 1, 1), (1, 0 | 1 << 5, 2), (1, 0, 0), (1, 0, 1), (2, 2, 1), (2, 2, 0), (6, 0, 0), (6, 1, 0), (6, 2, 0)]);
     case(&[(0, 1, 2), (0, 0, 1), (1, 0 | 1 << 5, 2), (1, 1 | 0 << 5, 2), (3, 2, 3), (3, 2, 8), (3, 2, 4), (6, 2, 0), (6, 0, 0), (6, 1, 0), (6, 3, 0), (6, 4, 0)]);
+    // ---- refused creations: every variant alone, between two ordinary regions, and before the final drops
+    for v in 0..9u64 {
+        case(&[(7, v, 1)]);
+        case(&[(0, 1, 1), (7, v, 2), (0, 0, 3), (7, v, 1), (1, 0 | 2 << 5, 2), (6, 0, 0), (6, 2, 0), (7, v, 4), (6, 3, 0)]);
+        case(&[(7, v, 1), (7, (v + 3) % 9, 1), (7, (v + 6) % 9, 2), (0, 2, 1), (6, 0, 0)]);
+    }
+    // ---- consumed arguments: from_arc_regions / from_regions / insert_region that FAIL (overlap: both regions in
+    // one slot; unsorted; empty) with and without another owner of the consumed regions, and that succeed
+    for k in 0..3u64 {
+        for k2 in 0..3u64 {
+            for un in [0u64, 16] {
+                // both handles consumed by a failing call: both mappings must go (raw ones stay)
+                case(&[(0, k, 1), (0, k2, 1), (8, 0 | 1 << 5, 2 + un), (6, 0, 0), (6, 1, 0)]);
+                // unsorted
+                case(&[(0, k, 2), (0, k2, 1), (8, 0 | 1 << 5, 2 + un), (0, k, 3)]);
+                // success, then every drop order of the map and a snapshot of it
+                case(&[(0, k, 1), (0, k2, 2), (8, 0 | 1 << 5, 2 + un), (5, 2, 0), (6, 2, 0), (6, 3, 0)]);
+                case(&[(0, k, 1), (0, k2, 2), (8, 0 | 1 << 5, 2 + un), (5, 2, 0), (6, 3, 0), (6, 2, 0)]);
+            }
+            // another owner exists (a clone of the first handle / a map holding it): the failing call must not unmap it
+            case(&[(0, k, 1), (0, k2, 1), (4, 0, 0), (8, 0 | 1 << 5, 2), (8, 0 | 1 << 5, 18), (6, 2, 0)]);
+            case(&[(0, k, 1), (0, k2, 1), (1, 0, 1), (8, 0 | 1 << 5, 2), (6, 2, 0)]);
+            // from_regions over a shared Arc is not possible; over the same handle twice neither
+            case(&[(0, k, 1), (4, 0, 0), (8, 0, 17), (8, 0 | 0 << 5, 2), (8, 0 | 1 << 5, 2), (6, 0, 0), (6, 1, 0)]);
+            // insert_region taking the Arc: failing (same slot) without / with another owner; succeeding
+            case(&[(0, k, 1), (1, 0, 1), (0, k2, 1), (9, 1, 2), (6, 0, 0), (6, 1, 0)]);
+            case(&[(0, k, 1), (1, 0, 1), (0, k2, 1), (4, 2, 0), (9, 1, 2), (6, 0, 0), (6, 1, 0), (6, 3, 0)]);
+            case(&[(0, k, 1), (1, 0, 1), (0, k2, 2), (9, 1, 2), (6, 0, 0), (6, 1, 0), (6, 3, 0)]);
+            case(&[(0, k, 1), (1, 0, 1), (0, k2, 2), (9, 1, 2), (6, 3, 0), (6, 1, 0), (6, 0, 0)]);
+            // the map's own region handed back to it: overlap with itself
+            case(&[(0, k, 1), (1, 0, 1), (9, 1, 0), (6, 1, 0)]);
+        }
+    }
+    // empty vector, failing remove_region between refusals
+    case(&[(8, 0, 0), (8, 0, 16), (0, 1, 1), (1, 0, 1), (3, 1, 3), (7, 0, 1), (3, 1, 8), (7, 6, 1), (3, 1, 2), (6, 0, 0), (6, 1, 0), (6, 2, 0), (6, 3, 0)]);
     // ---- random histories, steered by a shadow of the handle table (kind + slots) so that most
     // operations are meaningful; the shadow only guides the choice, it is not an oracle
     #[derive(Clone)]
@@ -384,7 +669,7 @@ fn gen(rng: &mut Rng, tier: Tier, emit: &mut dyn FnMut(Vec<Tok>)) {
                     *rng.pick(&c)
                 }
             };
-            let c = if i < 2 { 0 } else { rng.below(17) };
+            let c = if i < 2 { 0 } else { rng.below(23) };
             match c {
                 0..=2 if nreg < 40 => {
                     let k = if kinds == 3 { rng.below(3) } else { kinds };
@@ -455,7 +740,60 @@ fn gen(rng: &mut Rng, tier: Tier, emit: &mut dyn FnMut(Vec<Tok>)) {
                         sh.push(Sh::S);
                     }
                 }
-                13 => ops.push((rng.range(7, 9), any(rng, &sh), 0)),
+                13 => ops.push((rng.range(10, 12), any(rng, &sh), 0)),
+                17..=18 if nreg < 40 => {
+                    // a refused creation (variants 6..8 take a region id)
+                    let v = rng.below(9);
+                    ops.push((7, v, rng.range(1, nslots)));
+                    if v >= 6 {
+                        nreg += 1;
+                    }
+                }
+                19..=20 => {
+                    // from_arc_regions / from_regions over the handles themselves
+                    let cnt = rng.range(1, 3);
+                    let mut hs: Vec<u64> = Vec::new();
+                    for _ in 0..cnt {
+                        let h = of(rng, &sh, 0) % 32;
+                        if !hs.contains(&h) || rng.chance(1, 10) {
+                            hs.push(h);
+                        }
+                    }
+                    let slot = |h: &u64| match sh.get(*h as usize) {
+                        Some(Sh::R(s)) => Some(*s),
+                        _ => None,
+                    };
+                    if rng.chance(3, 4) {
+                        hs.sort_by_key(|h| slot(h).unwrap_or(0));
+                    }
+                    let slots: Vec<Option<u64>> = hs.iter().map(slot).collect();
+                    let packed = hs.iter().rev().fold(0u64, |acc, h| acc * 32 + h);
+                    let un = if rng.chance(1, 3) { 16 } else { 0 };
+                    ops.push((8, packed, hs.len() as u64 + un));
+                    let distinct = (0..hs.len()).all(|i| !hs[i + 1..].contains(&hs[i]));
+                    if distinct && slots.iter().all(|s| s.is_some()) {
+                        // (with un the call may also be impossible: the shadow does not count owners; it only guides)
+                        for h in &hs {
+                            sh[*h as usize] = Sh::Dead;
+                        }
+                        if slots.windows(2).all(|w| w[0] < w[1]) {
+                            sh.push(Sh::M(slots.iter().map(|s| s.unwrap()).collect()));
+                        }
+                    }
+                }
+                21..=22 => {
+                    let (m, r) = (of(rng, &sh, 1), of(rng, &sh, 0));
+                    ops.push((9, m, r));
+                    if let (Some(Sh::M(v)), Some(Sh::R(s))) = (sh.get(m as usize).cloned(), sh.get(r as usize).cloned()) {
+                        sh[r as usize] = Sh::Dead;
+                        if !v.contains(&s) {
+                            let mut v2 = v.clone();
+                            v2.push(s);
+                            v2.sort();
+                            sh.push(Sh::M(v2));
+                        }
+                    }
+                }
                 _ => {
                     let h = of(rng, &sh, 3);
                     ops.push((6, h, 0));
